@@ -217,7 +217,7 @@ def main(run):
             recs.setdefault((r["prog"], r["var"]), r)
 
     if thorough:
-        stride_a, stride_b = 137, 7
+        stride_a, stride_b = 251, 7
         a = require_ok(run_tlc("Cli", cfg_text=cfg(3, "full", "FALSE", stride_a, run.seed % stride_a, classes),
                                label="Cli: <=3 faults x all options (exhaustive)", timeout=1500, heap="8g"))
         collect(a, "<=3 faults, all options")
@@ -264,6 +264,7 @@ def main(run):
     results = pmap(run_task, tasks)
     run.add_eval(len(tasks))
 
+    run.note("runs_with_internal_error_banner", 0)
     by_prog = {}
     per_class, per_w, n_fail_pred, n_files_pred = {}, {}, 0, 0
     for rec, task, res in zip(chosen, tasks, results):
